@@ -266,3 +266,81 @@ Definition jholds (tr : list (ev * obs)) : bool :=
 
 (* ---------------------------------------------------------- the monitor *)
 Definition holds (tr : list (ev * obs)) : bool := vholds tr && rholds tr && jholds tr.
+
+(* ================================================================ worker
+   The Worker contract (interface Worker.NewJob): every job a worker reads
+   produces exactly one result, and the worker does not read another job
+   before that.  Monitor over a worker trace:
+   * a job is only accepted when none is outstanding; an already cancelled
+     job is not queued to the peer, any other is;
+   * a result is only delivered for the outstanding job, and its class is the
+     first cause that ended the job (finished response, timer, disconnect,
+     caller cancel, batch-internal cancel);
+   * when the dispatcher is ready to take a result (WTake) and a cause has
+     occurred, the result is there — in particular a job whose batch timed
+     out (WIntCancel) is reported, so the dispatcher can free the worker;
+   * nothing is required after WQuit. *)
+Record wmon := { wpend : option Z; wcause : option jerr; wquit : bool }.
+Definition wminit : wmon := {| wpend := None; wcause := None; wquit := false |}.
+
+Definition cause_of (e : wev) : option jerr :=
+  match e with
+  | WMsg true _ => Some JOk
+  | WTimer => Some JTimeout
+  | WDisconnect => Some JDisconnected
+  | WCancel | WIntCancel => Some JCanceled
+  | _ => None
+  end.
+Definition jerr_eqb (a b : jerr) : bool :=
+  match a, b with
+  | JOk, JOk | JTimeout, JTimeout | JDisconnected, JDisconnected | JCanceled, JCanceled | JOther, JOther => true
+  | _, _ => false
+  end.
+
+Definition wmstep (m : wmon) (eo : wev * wobs) : option wmon :=
+  let '(e, o) := eo in
+  if wquit m then Some m else
+  match e with
+  | WQuit => Some {| wpend := wpend m; wcause := wcause m; wquit := true |}
+  | WJob j pc =>
+    match wres o with Some _ => None | None =>
+    if wacc o then
+      match wpend m with
+      | Some _ => None                       (* took a job while one is outstanding *)
+      | None =>
+        if Bool.eqb (wsent o) (negb pc)
+        then Some {| wpend := Some j; wcause := if pc then Some JCanceled else None; wquit := false |}
+        else None
+      end
+    else Some m
+    end
+  | WTake =>
+    match wres o, wpend m, wcause m with
+    | Some (j, err), Some j', Some c =>
+      if (j =? j') && jerr_eqb err c then Some {| wpend := None; wcause := None; wquit := false |} else None
+    | Some _, _, _ => None                   (* result without an outstanding, ended job *)
+    | None, Some _, Some _ => None           (* the job has ended but is not reported *)
+    | None, _, _ => Some m
+    end
+  | _ =>
+    match wres o with Some _ => None | None =>
+    if wacc o then None else
+    match wpend m, wcause m with
+    | Some _, None => Some {| wpend := wpend m; wcause := cause_of e; wquit := false |}
+    | _, _ => Some m
+    end
+    end
+  end.
+
+Fixpoint wmon_run (m : wmon) (tr : list (wev * wobs)) : option wmon :=
+  match tr with
+  | [] => Some m
+  | eo :: rest => match wmstep m eo with Some m' => wmon_run m' rest | None => None end
+  end.
+Definition wholds (tr : list (wev * wobs)) : bool :=
+  match wmon_run wminit tr with Some _ => true | None => false end.
+
+Definition waccepted (tr : list (wev * wobs)) : list Z :=
+  flat_map (fun eo => match fst eo with WJob j _ => if wacc (snd eo) then [j] else [] | _ => [] end) tr.
+Definition wresults (tr : list (wev * wobs)) : list (Z * jerr) :=
+  flat_map (fun eo => match wres (snd eo) with Some r => [r] | None => [] end) tr.
